@@ -27,6 +27,9 @@ def lookup(fv):
         return None
     if ent is not None and ent[0] is fv:
         return ent[1]
+    # bound builtins are fresh objects at every access (int.from_bytes is not int.from_bytes): match by owner and name
+    if isinstance(fv, types.BuiltinFunctionType) and getattr(fv, "__self__", None) is int and fv.__name__ == "from_bytes":
+        return m_from_bytes
     return None
 
 
@@ -214,7 +217,12 @@ def clamp_slice(E, n, lo, hi):
         zx, zn = zint(x), zint(n)
         if isinstance(x, int):
             if x >= 0:
-                return z3.If(zx > zn, zn, zx) if not isinstance(n, int) else min(x, n)
+                if isinstance(n, int):
+                    return min(x, n)
+                lo, _hi = E.interval(zn)
+                if (lo is not None and lo >= x) or entails(E, zn >= x):
+                    return x
+                return z3.If(zx > zn, zn, zx)
             return z3.If(zx + zn < 0, z3.IntVal(0), zx + zn)
         y = z3.If(zx < 0, z3.If(zx + zn < 0, z3.IntVal(0), zx + zn), zx)
         return z3.If(y > zn, zn, y)
